@@ -32,11 +32,11 @@ LCAP = 12
 
 ALPHABETS = {
     "abc": {"names": ["a", "b", "c"],
-            "nodes": {"a": {}, "b": {}, "c": {}}, "parent": "doc"},
+            "nodes": {"a": {}, "b": {}, "c": {"attrs": {"k": {"default": None}}}}, "parent": "doc"},
     "grp": {"names": ["a", "b", "c", "g"],
             "nodes": {"a": {"group": "g"}, "b": {"group": "g"}, "c": {}}, "parent": "doc"},
     "inl": {"names": ["text", "img", "ref", "i"],
-            "nodes": {"img": {"inline": True, "group": "i"}, "ref": {"inline": True, "attrs": {"id": {}}}},
+            "nodes": {"img": {"inline": True, "group": "i", "attrs": {"alt": {"default": None}}}, "ref": {"inline": True, "attrs": {"id": {}}}},
             "parent": "p"},
 }
 UNARY = ["?", "*", "+", "{2}", "{1,}", "{0,2}", "{1,3}"]
@@ -423,7 +423,7 @@ def direct_repo(p):
     solver = z3.Solver()
     solver.set("timeout", 60000)
     n = 0
-    for sn in ("basic", "list", "strict", "title", "fixed", "iso", "table"):
+    for sn in ("basic", "list", "strict", "title", "fixed", "iso", "table", "cx"):
         spec = schemas.spec_of(sn)
         schema = schemas.get(sn)
         for tname, sp in spec["nodes"].items():
